@@ -20,10 +20,33 @@ pub fn gen_c17(c: &mut Choices) -> Case {
     let mut inhabitants = serde_json::Map::new();
     let mut max_depth = 0;
     for i in 0..n {
-        let t: RtType = g.ty(0);
+        let mut t: RtType = g.ty(0);
         let optional = g.c.chance(1, 3);
         let key = format!("p{i}");
-        members.push(format!("{key}{}: {}", if optional { "?" } else { "" }, t.text));
+        match g.c.weighted(&[12, 1, 1, 1]) {
+            1 => {
+                // no annotation: implicitly `any`, nothing can be checked
+                g.labels.push("member=unannotated".into());
+                t = RtType { text: String::new(), ctors: None, loose: None, inhabitants: t.inhabitants.clone(), depth: t.depth };
+                members.push(format!("{key}{}", if optional { "?" } else { "" }));
+            }
+            2 => {
+                g.labels.push("member=getter".into());
+                members.push(format!("get {key}(): {}", t.text));
+            }
+            3 => {
+                g.labels.push("member=method".into());
+                t = RtType {
+                    text: "(method)".into(),
+                    ctors: Some(vec!["Function".into()]),
+                    loose: None,
+                    inhabitants: vec![json!({"k":"fn","id":"inh","ret":{"k":"undef"}})],
+                    depth: t.depth,
+                };
+                members.push(format!("{key}{}(a: number): void", if optional { "?" } else { "" }));
+            }
+            _ => members.push(format!("{key}{}: {}", if optional { "?" } else { "" }, t.text)),
+        }
         max_depth = max_depth.max(t.depth);
         // "BigInt#lit" marks constructors contributed by bigint *literal* types (D18's shape)
         let view = |v: &Vec<String>, lit_as: &str| -> Vec<String> {
@@ -87,7 +110,7 @@ impl Property for C17 {
         "C17"
     }
     fn rule(&self) -> String {
-        "1-3 props whose declared types are expressions of depth <=4 built from the atom table (string/number/boolean/object/bigint/symbol/null/any/unknown keywords; string, number, boolean, bigint, template literal types; function and constructor types; arrays, tuples; type literals with and without call signatures, {}; Array<T>, Function, Object, Date, Map, Set, WeakMap, WeakSet, Promise, RegExp, Error) by union, alias indirection (1-2 hops), parentheses, optional members, array / tuple indexing ([number], [0]), property indexing through interfaces and aliases ([\"k\"], [\"a\"|\"b\"], [string], method members), utility wrappers (Partial, Required, Readonly, Record, Pick, Omit, InstanceType, Uppercase, Lowercase, Capitalize, Parameters, ConstructorParameters, NonNullable, Exclude, Extract). Each generated type carries its expected constructor set (any/unknown absorbing -> no check) and sample inhabitants. Oracle: (a) the normalised emitted `type` (scalar == one-element list; bare null / absent == no check) equals the expected set (for Exclude / Extract: contains the constructors of the surviving inhabitants and stays within the union of the parts), with Boolean and String in declaration order; (b) Vue's runtime type assertion (mock, from Vue's source) accepts every generated inhabitant against the emitted type. non-trivial = composition depth >=2; distinct by hash(source)".into()
+        "1-3 props whose declared types are expressions of depth <=4 built from the atom table (string/number/boolean/object/bigint/symbol/null/any/unknown keywords; string, number, boolean, bigint, template literal types; function and constructor types; arrays, tuples; type literals with and without call signatures, {}; Array<T>, Function, Object, Date, Map, Set, WeakMap, WeakSet, Promise, RegExp, Error) by union, alias indirection (1-2 hops), parentheses, optional members, members written as getter / method / without annotation, the keywords undefined / void and callable object types with extra members (bounds only), optional tuple elements, index signatures, array / tuple indexing ([number], [0]), property indexing through interfaces and aliases ([\"k\"], [\"a\"|\"b\"], [string], method members), utility wrappers (Partial, Required, Readonly, Record, Pick, Omit, InstanceType, Uppercase, Lowercase, Capitalize, Parameters, ConstructorParameters, NonNullable, Exclude, Extract). Each generated type carries its expected constructor set (any/unknown absorbing -> no check) and sample inhabitants. Oracle: (a) the normalised emitted `type` (scalar == one-element list; bare null / absent == no check) equals the expected set (for Exclude / Extract: contains the constructors of the surviving inhabitants and stays within the union of the parts), with Boolean and String in declaration order; (b) Vue's runtime type assertion (mock, from Vue's source) accepts every generated inhabitant against the emitted type. non-trivial = composition depth >=2; distinct by hash(source)".into()
     }
     fn assumptions(&self) -> Vec<String> {
         vec![
